@@ -2,14 +2,21 @@
 """Regenerates MANIFEST.json from checks.json + manifest_meta.json (texts per property)."""
 import json, os
 V = os.path.dirname(os.path.abspath(__file__))
-conf = json.load(open(os.path.join(V, "checks.json")))
+conf = {}
+base = os.path.join(V, "harness", "checks")
+for d in sorted(os.listdir(base)):
+    p = os.path.join(base, d, "check.json")
+    if os.path.exists(p):
+        c = json.load(open(p))
+        if c.get("manifest") and not c.get("disabled"):
+            conf[c["id"]] = c
 meta = json.load(open(os.path.join(V, "manifest_meta.json")))
 props = [json.loads(l)["id"] for l in open(os.path.join(V, "properties.jsonl"))]
 checks = []
 for cid in props:
-    if cid not in conf or cid not in meta["checks"]:
+    if cid not in conf:
         continue
-    m = meta["checks"][cid]
+    m = conf[cid]["manifest"]
     checks.append({
         "property_id": cid,
         "quick_cmd": "./check %s quick" % cid,
@@ -22,11 +29,15 @@ for cid in props:
         "technique": m["technique"],
     })
 na = [{"property_id": p, "reason": meta["not_applicable"].get(p, "check not built yet in this round; see DESIGN.md §6 for the plan")} for p in props if p not in [c["property_id"] for c in checks]]
+eng = {}
+for c in checks:
+    eng.setdefault(c["engine"], []).append(c["property_id"])
+engines = [{"name": k, "path": meta["engine_paths"].get(k.split()[0], "harness"), "serves_properties": v, "kind_free_text": meta["engine_kinds"].get(k.split()[0], "")} for k, v in sorted(eng.items())]
 man = {
     "version": 1,
     "setup_cmd": "./setup.sh",
     "hooks": meta["hooks"],
-    "engines": meta["engines"],
+    "engines": engines,
     "checks": checks,
     "notes": meta["notes"],
     "not_applicable": na,
